@@ -161,8 +161,38 @@ fn exec_int(ctx: &mut Ctx, ev: &Ev) {
     }
 }
 
+/// The `all_functions` iterators of the two types driven through the same script of `Iterator` methods (nth, skip,
+/// step_by, take, min/max, count, last, fold; see iterprobe.rs): the observations must be the same, step by step.
+fn exec_iter<S: Tbl>(ctx: &mut Ctx, ev: &Ev) {
+    use vmon::iterprobe as ip;
+    let n = ev.n;
+    let (fresh, script) = ip::ints_to_script(&ev.ints);
+    ctx.event(&format!("iter-script|N={}", n), ev, true);
+    let strip = |v: Vec<ip::Obs>| -> Vec<ip::Obs> { v.into_iter().filter(|o| !matches!(o, ip::Obs::Hint(..))).collect() };
+    let start_s: Option<S> = if fresh { None } else { Some(S::t_from_blocks(n, &ev.tabs[0])) };
+    let start_d: Option<Lut> = if fresh { None } else { Some(Lut::from_blocks(n, &ev.tabs[0])) };
+    let rs = guard(|| strip(S::t_iter_script(n, start_s.as_ref(), &script)));
+    let rd = guard(|| strip(<Lut as Tbl>::t_iter_script(n, start_d.as_ref(), &script)));
+    let same = match (&rs, &rd) {
+        (Outcome::Returned(a), Outcome::Returned(b)) => a == b,
+        (Outcome::Panicked(_), Outcome::Panicked(_)) => true,
+        _ => false,
+    };
+    ctx.check("iterators-correspond", same, ev, "iter-script", || {
+        let d = |r: &Outcome<Vec<ip::Obs>>| match r {
+            Outcome::Returned(v) => format!("{:x?}", v),
+            Outcome::Panicked(m) => format!("panic({})", m),
+        };
+        format!("script {:?} from {}: LutN observed {} ; Lut observed {}",
+            script.iter().map(|(k, a)| format!("{}({})", ip::kind_name(*k), a)).collect::<Vec<_>>(),
+            if fresh { "fresh iterators".to_string() } else { format!("position {}", vmon::ctx::hex_of_blocks(&ev.tabs[0])) },
+            d(&rs), d(&rd))
+    });
+}
+
 fn exec(ctx: &mut Ctx, ev: &Ev) {
     match ev.ty.as_str() {
+        "iter" => with_static!(ev.n, S => exec_iter::<S>(ctx, ev)),
         "diff" => with_static!(ev.n, S => exec_diff::<S>(ctx, ev)),
         "random" => with_static!(ev.n, S => exec_random::<S>(ctx, ev)),
         "roundtrip" => with_static!(ev.n, S => exec_roundtrip::<S>(ctx, ev)),
@@ -253,6 +283,13 @@ fn main() {
                     let (_, a) = gen::any_fam(n, &mut rng);
                     exec(ctx, &Ev::new("roundtrip", "roundtrip", n).tab(&a));
                 }
+                for _ in 0..if thorough { 4000 } else { 200 } {
+                    let (fresh, start) = vmon::iterprobe::gen_start(n, &mut rng);
+                    let script = vmon::iterprobe::gen_script(n, &start, &mut rng);
+                    let mut e = Ev::new("iter-script", "iter", n).tab(&start);
+                    e.ints = vmon::iterprobe::script_to_ints(fresh, &script);
+                    exec(ctx, &e);
+                }
                 for other in 0..=13usize {
                     for _ in 0..if thorough { 20 } else { 3 } {
                         let (_, a) = gen::any_fam(other, &mut rng);
@@ -330,6 +367,7 @@ fn main() {
         required.push(format!("conv-roundtrip|N={}", n));
         required.push(format!("conv-tryfrom|N={}", n));
         required.push(format!("random-wellformed|N={}", n));
+        required.push(format!("iter-script|N={}", n));
     }
     for n in 3..=6 {
         required.push(format!("conv-int|N={}", n));
